@@ -618,3 +618,4 @@ LEVEL_NOTE = ("trusts the harness polynomial ring; element spaces transcribed in
 TECHNIQUE = ("finite-table enumeration on an exact polynomial ring + property-based testing (Hypothesis) vs formal "
              "derivatives, complex-step derivatives and closed-form cubics")
 DESIGN_REF = "DESIGN.md 4/C06"
+READY = True
